@@ -178,8 +178,6 @@ impl Sat {
       return Err(ErrorKind::PeriodOffset.error(degree));
     }
 
-    let cycle_start_epoch = cycle_number * CYCLE_EPOCHS;
-
     const HALVING_INCREMENT: u32 = SUBSIDY_HALVING_INTERVAL % DIFFCHANGE_INTERVAL;
 
     // For valid degrees the relationship between epoch_offset and period_offset
@@ -192,9 +190,13 @@ impl Sat {
 
     let epochs_since_cycle_start = relationship % DIFFCHANGE_INTERVAL / HALVING_INCREMENT;
 
-    let epoch = cycle_start_epoch + epochs_since_cycle_start;
-
-    let height = Height(epoch * SUBSIDY_HALVING_INTERVAL + epoch_offset);
+    let height = cycle_number
+      .checked_mul(CYCLE_EPOCHS)
+      .and_then(|cycle_start_epoch| cycle_start_epoch.checked_add(epochs_since_cycle_start))
+      .and_then(|epoch| epoch.checked_mul(SUBSIDY_HALVING_INTERVAL))
+      .and_then(|epoch_start_height| epoch_start_height.checked_add(epoch_offset))
+      .map(Height)
+      .ok_or_else(|| ErrorKind::IntegerRange.error(degree))?;
 
     let (block_offset, rest) = match rest.split_once('‴') {
       Some((block_offset, rest)) => (
